@@ -437,11 +437,14 @@ def tops_of(mod):
 
 def option_sets(tier, r):
     out = []
+    combos = [(10, 0), (16, 1), (2, 1), (10, 1)] if tier == "quick" else [(b, g) for b in BASES for g in (0, 1)]
     for (m, c) in LAYOUTS_RR + [LAYOUT_NOT_RR]:
-        for b in BASES:
-            for g in (0, 1):
-                out.append((m, c, b, g))
+        for b, g in combos:
+            out.append((m, c, b, g))
     return out
+
+
+run_many_long = I.run_many_long
 
 
 def line_fields(ln):
@@ -600,7 +603,7 @@ def run_modules(chk, mods, buffers_per_struct, r, model_ok, tier, compiler="clan
                     meta.append((st, built, opt))
         run_items.append((binary, "\n".join(lines) + "\n"))
         metas.append((mod, origin, prep, meta, lines))
-    results = cppbuild.run_many(run_items, workers=6)
+    results = run_many_long(run_items, workers=6)
     int_checks, tok_texts, wvals, rvals = [], [], [], []
     shapes = {}
     second = []      # per module: [(meta index, line)] to run with a comma-repaired text
@@ -648,7 +651,7 @@ def run_modules(chk, mods, buffers_per_struct, r, model_ok, tier, compiler="clan
     # so that the rest of the round trip is still judged
     items2 = [(run_items[mi][0], "\n".join(l for _, l in sec) + "\n") for mi, sec in enumerate(second) if sec]
     idx2 = [mi for mi, sec in enumerate(second) if sec]
-    for mi, res in zip(idx2, cppbuild.run_many(items2, workers=6)):
+    for mi, res in zip(idx2, run_many_long(items2, workers=6)):
         mod, origin, prep, meta, lines = metas[mi]
         if res.kind != "ok":
             chk.violation("input", {"emb": prep["text"], "part": "TXT", "observed": "%s: %s" % (res.kind, res.err[-2000:]),
